@@ -31,6 +31,24 @@ func NewBitArray(bits int) *BitArray {
 	}
 }
 
+// ValidateBasic checks that the number of elements matches the number of bits:
+// a bit array decoded from the wire carries both, and every method indexes
+// Elems on the assumption that they agree. A nil bit array is valid.
+func (bA *BitArray) ValidateBasic() error {
+	if bA == nil {
+		return nil
+	}
+	bA.mtx.Lock()
+	defer bA.mtx.Unlock()
+	if bA.Bits < 0 {
+		return fmt.Errorf("negative number of bits %d", bA.Bits)
+	}
+	if expected := (bA.Bits + 63) / 64; len(bA.Elems) != expected {
+		return fmt.Errorf("%d bits need %d elements, got %d", bA.Bits, expected, len(bA.Elems))
+	}
+	return nil
+}
+
 // Size returns the number of bits in the bitarray
 func (bA *BitArray) Size() int {
 	if bA == nil {
